@@ -395,5 +395,148 @@ theorem clean_perm_exact {s s' : UStore} {m : Nat → Option Int} (h : Rep s m) 
   obtain ⟨f, _, hf, hp⟩ := clean_perm_fillers h hw hmask hc
   rwa [hf hk, List.append_nil] at hp
 
+
+/-! ### The kind (here: default-filled or not) is never changed -/
+
+theorem insert_dvecBased {s s' : UStore} {i : Nat} {v : Int} {d : List Int}
+    (h : s.insert i v = .ok (s', d)) : s'.dvecBased = s.dvecBased := by
+  induction s generalizing s' d with
+  | flagged inner ev emit ih =>
+    simp only [insert] at h
+    cases hi : insert inner i v with
+    | ok p =>
+      obtain ⟨s1, d1⟩ := p
+      rw [hi] at h
+      simp only [Out.ok.injEq, Prod.mk.injEq] at h
+      obtain ⟨rfl, rfl⟩ := h
+      exact (ih hi : s1.dvecBased = _)
+    | panic w => rw [hi] at h; cases h
+    | ub w => rw [hi] at h; cases h
+  | derefFlagged inner ev emit ih =>
+    simp only [insert] at h
+    cases hi : insert inner i v with
+    | ok p =>
+      obtain ⟨s1, d1⟩ := p
+      rw [hi] at h
+      simp only [Out.ok.injEq, Prod.mk.injEq] at h
+      obtain ⟨rfl, rfl⟩ := h
+      exact (ih hi : s1.dvecBased = _)
+    | panic w => rw [hi] at h; cases h
+    | ub w => rw [hi] at h; cases h
+  | dvec slots =>
+    simp only [insert] at h
+    split at h <;> (cases h; rfl)
+  | _ => cases h; rfl
+
+theorem poke_dvecBased {s s' : UStore} {i : Nat} {v : Int} (h : s.poke i v = .ok s') :
+    s'.dvecBased = s.dvecBased := by
+  induction s generalizing s' with
+  | flagged inner ev emit ih =>
+    simp only [poke] at h
+    cases hi : poke inner i v with
+    | ok s1 => rw [hi] at h; simp only [Out.ok.injEq] at h; subst h; exact (ih hi : s1.dvecBased = _)
+    | panic w => rw [hi] at h; cases h
+    | ub w => rw [hi] at h; cases h
+  | derefFlagged inner ev emit ih =>
+    simp only [poke] at h
+    cases hi : poke inner i v with
+    | ok s1 => rw [hi] at h; simp only [Out.ok.injEq] at h; subst h; exact (ih hi : s1.dvecBased = _)
+    | panic w => rw [hi] at h; cases h
+    | ub w => rw [hi] at h; cases h
+  | null => cases h; rfl
+  | dense data eid did =>
+    simp only [poke] at h
+    repeat' split at h
+    all_goals first | (cases h; rfl) | cases h
+  | _ =>
+    simp only [poke] at h
+    split at h
+    all_goals first | (cases h; rfl) | cases h
+
+theorem touch_dvecBased (s : UStore) (i d : Nat) : (s.touch i d).dvecBased = s.dvecBased := by
+  cases s <;> rfl
+
+theorem remove_dvecBased {s s' : UStore} {i : Nat} {v : Int} (h : s.remove i = .ok (s', v)) :
+    s'.dvecBased = s.dvecBased := by
+  induction s generalizing s' v with
+  | flagged inner ev emit ih =>
+    simp only [remove] at h
+    cases hi : remove inner i with
+    | ok p =>
+      obtain ⟨s1, d1⟩ := p
+      rw [hi] at h
+      simp only [Out.ok.injEq, Prod.mk.injEq] at h
+      obtain ⟨rfl, rfl⟩ := h
+      exact (ih hi : s1.dvecBased = _)
+    | panic w => rw [hi] at h; cases h
+    | ub w => rw [hi] at h; cases h
+  | derefFlagged inner ev emit ih =>
+    simp only [remove] at h
+    cases hi : remove inner i with
+    | ok p =>
+      obtain ⟨s1, d1⟩ := p
+      rw [hi] at h
+      simp only [Out.ok.injEq, Prod.mk.injEq] at h
+      obtain ⟨rfl, rfl⟩ := h
+      exact (ih hi : s1.dvecBased = _)
+    | panic w => rw [hi] at h; cases h
+    | ub w => rw [hi] at h; cases h
+  | null => cases h; rfl
+  | dense data eid did =>
+    simp only [remove] at h
+    repeat' split at h
+    all_goals first | (cases h; rfl) | cases h
+  | _ =>
+    simp only [remove] at h
+    split at h
+    all_goals first | (cases h; rfl) | cases h
+
+theorem clean_dvecBased {s s' : UStore} {mask : BSet} {d : List Int}
+    (h : s.clean mask = .ok (s', d)) : s'.dvecBased = s.dvecBased := by
+  induction s generalizing s' d with
+  | flagged inner ev emit ih =>
+    simp only [clean] at h
+    cases hi : clean inner mask with
+    | ok p =>
+      obtain ⟨s1, d1⟩ := p
+      rw [hi] at h
+      simp only [Out.ok.injEq, Prod.mk.injEq] at h
+      obtain ⟨rfl, rfl⟩ := h
+      exact (ih hi : s1.dvecBased = _)
+    | panic w => rw [hi] at h; cases h
+    | ub w => rw [hi] at h; cases h
+  | derefFlagged inner ev emit ih =>
+    simp only [clean] at h
+    cases hi : clean inner mask with
+    | ok p =>
+      obtain ⟨s1, d1⟩ := p
+      rw [hi] at h
+      simp only [Out.ok.injEq, Prod.mk.injEq] at h
+      obtain ⟨rfl, rfl⟩ := h
+      exact (ih hi : s1.dvecBased = _)
+    | panic w => rw [hi] at h; cases h
+    | ub w => rw [hi] at h; cases h
+  | vec slots =>
+    simp only [clean] at h
+    split at h
+    all_goals first | (cases h; rfl) | cases h
+  | _ => cases h; rfl
+
+/-- A property of the inner storage that every `UnprotectedStorage` function preserves. -/
+structure Preserved (P : UStore → Prop) : Prop where
+  insert : ∀ {s s' : UStore} {i : Nat} {v : Int} {d : List Int}, P s → s.insert i v = .ok (s', d) → P s'
+  poke : ∀ {s s' : UStore} {i : Nat} {v : Int}, P s → s.poke i v = .ok s' → P s'
+  touch : ∀ {s : UStore} (i d : Nat), P s → P (s.touch i d)
+  remove : ∀ {s s' : UStore} {i : Nat} {v : Int}, P s → s.remove i = .ok (s', v) → P s'
+  clean : ∀ {s s' : UStore} {mask : BSet} {d : List Int}, P s → s.clean mask = .ok (s', d) → P s'
+
+theorem preserved_wf : Preserved WF :=
+  ⟨insert_wf, poke_wf, fun i d h => (touch_wf _ i d).mpr h, remove_wf, clean_wf⟩
+
+theorem preserved_dvecBased (b : Bool) : Preserved (fun s => s.dvecBased = b) :=
+  ⟨fun h e => (insert_dvecBased e).trans h, fun h e => (poke_dvecBased e).trans h,
+   fun i d h => (touch_dvecBased _ i d).trans h, fun h e => (remove_dvecBased e).trans h,
+   fun h e => (clean_dvecBased e).trans h⟩
+
 end UStore
 end SpecsModel
